@@ -1,5 +1,5 @@
 ID = 'C16'
-UNITS = {'launch': dict(wrap='wrap.cc', new_block=96, cxxflags=['-fno-inline'], cuts=['^_ZNSt6threadC2IRFv']),
+UNITS = {'launch': dict(wrap='wrap.cc', shim=True, new_block=96, cxxflags=['-fno-inline'], cuts=['^_ZNSt6threadC2IRFv']),
          'tools': dict(wrap='wrap.cc', new_block=96, per_harness={'h_workers.c': {'gen_defs': ['VERIF_SEQ']}})}
 BOUNDS = 'T in {2,3} worker threads, range length 0..4, block size 1..2, at most ROUNDS-1 context switches per thread'
 STUBS = ['callback = harness function recording (value, thread) and returning a symbolic truth bit',
@@ -31,4 +31,10 @@ def queries(tier):
                        defs={'T': T, 'RANGE': R, 'BLOCKS': B, 'BLK': blk}, unwind=max(R, T) + 4, timeout=900, mem_gb=8,
                        desc='real %s body (thread creation, thread_num, join, result) with std::thread modelled as run-at-creation; %d threads, %d values, <=1 hit' % ('parallel_range_blocks' if B else 'parallel_range', T, R),
                        bounds='T=%d range=%d block=%d, sequential thread schedule' % (T, R, blk)))
+    mc = [(2, 2, 1), (2, 2, 2)] if tier == 'quick' else [(T, R, blk) for T in (1, 2, 3) for R in (0, 1, 2, 3, 4) for blk in (1, 2) if R % blk == 0]
+    for (T, R, blk) in mc:
+        qs.append(dict(name='multi_T%d_R%d_blk%d' % (T, R, blk), unit='launch', harness='h_launch.c',
+                       defs={'T': T, 'RANGE': R, 'BLOCKS': 1, 'BLK': blk, 'MULTI': 1}, unwind=max(R, T, 4) + 4, timeout=900, mem_gb=8,
+                       desc='real parallel_range_blocks_multi body: result set == set of values whose callback returned true (any subset), every value visited exactly once; %d threads, %d values' % (T, R),
+                       bounds='T=%d range=%d block=%d, sequential thread schedule, unordered_set shim capacity 4' % (T, R, blk)))
     return qs
